@@ -14,12 +14,15 @@ the public functions of the numeric modules are therefore wrapped (harness-side 
       live    the result of the real call itself, in the history the stream happened to produce
       near    f(a) was just called; now f(a*(1+1e-7))                          -- memo keyed on "close enough" / rounded keys
       alias   f(b); b *= 1.001 in place (the caller re-uses its container); f(b)  -- cache holding a reference
+      alias-0d  scalar arguments passed as 0-d arrays, updated in place, same call again -- memo keyed on the argument objects
       repeat  f(a) a second time                                               -- state machines driven by repeated calls
       after-error  f(malformed a) [raises]; f(a); twin-module f(a)             -- state left behind by an exception (found: a context manager
                                                                                   without try/finally left tools without its 2*pi)
       ambient-*    f(a) with logging at DEBUG / with xfab.CHECKS off           -- results that depend on process configuration (found: a debug
                                                                                   formatter scaling the result in place; a rejection moved
                                                                                   behind the validation switch)
+      ambient-python-O  f(a) in the module compiled with optimize=1              -- work done inside an assert statement
+      threads      f(a) from four threads at once, switch interval 1 us          -- module-level scratch arrays
       retained     f(a) -> r; f(a*1.001); r still holds f(a)                    -- one result buffer shared by all calls
       result-edit  f(a) -> r; r *= 2 (caller's in-place use); f(a)              -- a memo handing out its own storage
 * layout probe (same schedule): a float ndarray argument passed Fortran-ordered, as a transposed view or as a strided view must give
@@ -49,7 +52,21 @@ SLOW = {'genhkl', 'genhkl_base', 'genhkl_unique', 'reduce_cell', 'StructureFacto
 NO_DTYPE = {'genhkl', 'genhkl_base', 'genhkl_unique', 'genhkl_all'}   # a cell rounded to integers can be degenerate: the walk would not end
 PROBE_FIRST = 6
 PROBE_EVERY = 53
-_depth = [0]
+import threading as _threading
+
+
+class _Depth(_threading.local):
+    """nesting depth of guarded calls, per thread (worker threads of the thread probe start nested: they are never probed themselves)"""
+    v = 0
+
+    def __getitem__(self, i):
+        return self.v
+
+    def __setitem__(self, i, x):
+        self.v = x
+
+
+_depth = _Depth()
 _count = {}
 _prev = {}
 _nspecial = {}
@@ -451,7 +468,7 @@ def _probe(modname, name, f, a0, kw, live):
         return
     if _probe_values(modname, name, f, a0, kw, live, ref, b_live):
         return
-    for extra in (_after_error_probe, _ambient_probe, _retained_probe, _result_edit_probe):
+    for extra in (_after_error_probe, _ambient_probe, _optimized_probe, _retained_probe, _result_edit_probe, _thread_probe):
         try:
             if extra(modname, name, f, a0, kw, live, ref, b_live):
                 return
@@ -491,6 +508,22 @@ def _probe_values(modname, name, f, a0, kw, live, ref, b_live):
         if _outcome_bits(r1) != _outcome_bits(r2) and _outcome_bits(r1) is not None and _outcome_bits(r2) is not None:
             _record(modname, name, 'alias', b0, kw, r1, r2, first=a0)
             return True
+    # alias-0d: scalar arguments handed over as 0-d arrays (squeezed views into a parameter vector) that the caller updates in place
+    sc = [i for i in idx if isinstance(a0[i], (float, np.floating)) and not isinstance(a0[i], bool)]
+    if sc and live[0] == 'ok':
+        b0 = list(copy.deepcopy(a0))
+        for i in sc:
+            b0[i] = np.array(float(a0[i]))
+        r0 = _call(f, b0, copy.deepcopy(kw))
+        if r0[0] == 'ok' and _close(r0[1], live[1]):
+            for i in sc:
+                b0[i][...] = float(b0[i]) * (1 + 1e-3)
+            r1 = _call(f, b0, copy.deepcopy(kw))
+            r2 = _call(_fresh(modname, name), copy.deepcopy(b0), copy.deepcopy(kw))
+            STATS['alias_0d_probes'] = STATS.get('alias_0d_probes', 0) + 1
+            if _outcome_bits(r1) != _outcome_bits(r2) and _outcome_bits(r1) is not None and _outcome_bits(r2) is not None:
+                _record(modname, name, 'alias-0d', [float(x) if isinstance(x, np.ndarray) and x.ndim == 0 else x for x in b0], kw, r1, r2, first=a0)
+                return True
     return False
 
 
@@ -614,6 +647,69 @@ def _ambient_probe(modname, name, f, a0, kw, live, ref, b_live):
         if _outcome_bits(r1) != b_live:
             _record(modname, name, 'ambient-' + what, a0, kw, r1, live)
             return True
+    return False
+
+
+_CODE_OPT = {}
+
+
+def _fresh_optimized(modname, name):
+    """the function in a pristine copy of its module compiled as `python -O` compiles it (asserts stripped, __debug__ False)"""
+    m = sys.modules[modname]
+    path = m.__file__
+    if modname not in _CODE_OPT:
+        import warnings
+        with warnings.catch_warnings():
+            warnings.simplefilter('ignore')
+            _CODE_OPT[modname] = compile(open(path).read(), path, 'exec', optimize=1)
+    ns = {'__name__': modname, '__file__': path, '__package__': modname.rsplit('.', 1)[0]}
+    exec(_CODE_OPT[modname], ns)
+    return ns[name]
+
+
+def _optimized_probe(modname, name, f, a0, kw, live, ref, b_live):
+    """`python -O` (which xfab/checks.py itself recommends) strips assert statements: work done inside an assert disappears.  The module
+    compiled that way must compute the same thing, except where the reviewed code asserts on its input (live outcome AssertionError)"""
+    if live[0] == 'raise' and live[1] == 'AssertionError':
+        return False
+    r1 = _call(_fresh_optimized(modname, name), copy.deepcopy(a0), copy.deepcopy(kw))
+    STATS['optimized_probes'] = STATS.get('optimized_probes', 0) + 1
+    if _outcome_bits(r1) != b_live:
+        _record(modname, name, 'ambient-python-O', a0, kw, r1, live)
+        return True
+    return False
+
+
+def _thread_probe(modname, name, f, a0, kw, live, ref, b_live):
+    """the same call made from several threads at once (thread switches forced every microsecond): a function of its arguments has no
+    scratch storage another thread can overwrite"""
+    if live[0] != 'ok':
+        return False
+    K, M = 4, (3 if name in SLOW else 10)
+    bad = [None] * K
+    old = sys.getswitchinterval()
+
+    def work(i):
+        _depth[0] = 1
+        for _ in range(M):
+            r = _call(f, copy.deepcopy(a0), copy.deepcopy(kw))
+            if _outcome_bits(r) != b_live:
+                bad[i] = r
+                return
+    ts = [_threading.Thread(target=work, args=(i,)) for i in range(K)]
+    try:
+        sys.setswitchinterval(1e-6)
+        for t in ts:
+            t.start()
+        for t in ts:
+            t.join()
+    finally:
+        sys.setswitchinterval(old)
+    STATS['thread_probes'] = STATS.get('thread_probes', 0) + 1
+    hit = [r for r in bad if r is not None]
+    if hit:
+        _record(modname, name, 'threads', a0, kw, hit[0], ref)
+        return True
     return False
 
 
@@ -859,7 +955,11 @@ def violations():
         if sc.startswith('ambient-'):
             what = ('the outcome depends on process state no property lets it depend on (%s): the same call with the same arguments gives '
                     'something else' % {'ambient-logging-debug': 'logging level DEBUG on the xfab loggers',
-                                        'ambient-checks-off': 'xfab.CHECKS.activated = False, outside the reviewed guard sites'}.get(sc, sc))
+                                        'ambient-checks-off': 'xfab.CHECKS.activated = False, outside the reviewed guard sites',
+                                        'ambient-python-O': 'the module compiled as python -O compiles it: assert statements stripped'}.get(sc, sc))
+        elif sc == 'threads':
+            what = ('the same call made from four threads at once gives another result than made alone (scratch storage shared between '
+                    'calls)')
         elif sc == 'retained':
             what = ('the object returned to the caller was overwritten by a later call of the same function with other arguments '
                     '(a result buffer shared between calls)')
@@ -967,7 +1067,17 @@ def replay(v):
     kw = v.get('kwargs') or {}
     first = [conv(x) for x in v['first_call_args']] if v.get('first_call_args') is not None and v.get('scenario') != 'after-error' else None
     fresh = _fresh('xfab.' + modname, name)
-    if v['scenario'].startswith('ambient-'):
+    if v['scenario'] == 'ambient-python-O':
+        r2 = _call(f, copy.deepcopy(args), dict(kw))
+        r1 = _call(_fresh_optimized('xfab.' + modname, name), copy.deepcopy(args), dict(kw))
+    elif v['scenario'] == 'threads':
+        r2 = _call(fresh, copy.deepcopy(args), dict(kw))
+        r1 = r2
+        for _ in range(20):
+            if _thread_probe('xfab.' + modname, name, f, tuple(args), dict(kw), r2, r2, _outcome_bits(r2)):
+                r1 = ('ok', 'differs between threads')
+                break
+    elif v['scenario'].startswith('ambient-'):
         r2 = _call(f, copy.deepcopy(args), dict(kw))
         with _Ambient(v['scenario'][len('ambient-'):]):
             r1 = _call(f, copy.deepcopy(args), dict(kw))
@@ -990,6 +1100,14 @@ def replay(v):
             _call(ef, [conv(x) for x in b], dict(kw))
         r1 = _call(f, copy.deepcopy(args), dict(kw))
         r2 = _call(fresh, copy.deepcopy(args), dict(kw))
+    elif v['scenario'] == 'alias-0d':
+        b0 = [np.array(float(x)) if isinstance(x, float) else copy.deepcopy(x) for x in first]
+        _call(f, b0, dict(kw))
+        for x in b0:
+            if isinstance(x, np.ndarray) and x.ndim == 0:
+                x[...] = float(x) * (1 + 1e-3)
+        r1 = _call(f, b0, dict(kw))
+        r2 = _call(fresh, copy.deepcopy(b0), dict(kw))
     elif v['scenario'] == 'alias':
         b0 = copy.deepcopy(first)
         keys0 = _object_keys(b0)
